@@ -9,6 +9,19 @@ Local Open Scope list_scope.
 Lemma cache_guarded : forallb access_ok lock_facts = true.
 Proof. vm_compute. reflexivity. Qed.
 
+(* every cache operation that writes the maps holds the cache lock in a single
+   critical section; the sweeping / deleting operations are present (non-vacuity) *)
+Definition atomic_writer (fn : string) : bool :=
+  existsb (fun c => String.eqb (cs_fn c) fn && cs_writes c && Nat.eqb (cs_regions c) 1) cs_facts.
+
+Lemma cache_atomic_sections :
+  forallb cs_ok cs_facts = true /\
+  atomic_writer "security.SessionCache.InvalidateExpired" = true /\
+  atomic_writer "security.SessionCache.LookupNonExpired" = true /\
+  atomic_writer "security.SessionCache.Invalidate" = true /\
+  atomic_writer "security.SessionCache.Store" = true.
+Proof. vm_compute. auto. Qed.
+
 Lemma vars_safe : forallb var_ok var_facts = true /\ var_facts <> [].
 Proof. split; [vm_compute; reflexivity|discriminate]. Qed.
 
